@@ -15,12 +15,25 @@
 (*                                                                           *)
 (* stdout is a sequence of tokens: "lib" = whatever the library wrote while  *)
 (* evaluating, "json" = the JSON document of the root.                       *)
+(*                                                                           *)
+(* The command line carries TEXTS: the program (inline or in the -f file),   *)
+(* the selectors, the file names, the input bytes; the library hands back    *)
+(* texts: its output and the JSON document.  cfg may have a field            *)
+(* text = [chan, bytes]: one of these texts holds this byte sequence (JqUtil *)
+(* bytes).  The wrapper is a pipe for every text: what the library is called *)
+(* with IS the text of the command line, and the tokens "lib" / "json" stand *)
+(* for the library's bytes unchanged, wherever they are written.             *)
 EXTENDS JqUtil
 
 VARIABLES cfg, pc, opened, lib, calls, stdout, stderr, outfile, status
 cvars == <<cfg, pc, opened, lib, calls, stdout, stderr, outfile, status>>
 
 NoLib == [outcome |-> "na", json |-> "na"]
+NoText == [chan |-> "none", bytes |-> <<>>]
+TextOf(c) == IF "text" \in DOMAIN c THEN c.text ELSE NoText
+\* texts that travel from the command line to the library / from the library to stdout and the -o file
+InChans == {"prog-str", "prog-re", "prog-ws", "prog-cmt", "sel", "fname", "input-str", "input-ws"}
+OutChans == {"doc-val", "doc-key"}
 LibResults == {[outcome |-> "ok", json |-> "ok"], [outcome |-> "ok", json |-> "err"], [outcome |-> "err", json |-> "na"]}
 
 \* the inputs the evaluator is to read, in command-line order; stdin when no file is named
@@ -59,7 +72,7 @@ Evaluate(r) ==
   /\ pc = "open" /\ Len(opened) = Len(Inputs(cfg))
   /\ r \in LibResults
   /\ lib' = r
-  /\ calls' = Append(calls, [inputs |-> opened, sels |-> Selectors(cfg)])
+  /\ calls' = Append(calls, [inputs |-> opened, sels |-> Selectors(cfg), text |-> TextOf(cfg)])
   /\ stdout' = Append(stdout, "lib")
   /\ IF r.outcome = "err"
        THEN Fail("evaluation") /\ UNCHANGED <<cfg, opened, outfile>>
@@ -106,7 +119,7 @@ Result(c, r) ==
       diag |-> ~ok,
       stdout |-> (IF ev THEN <<"lib">> ELSE <<>>) \o (IF ok /\ c.out = "dash" THEN <<"json">> ELSE <<>>),
       outfile |-> IF ok /\ c.out = "path" THEN "json" ELSE "absent",
-      calls |-> IF ev THEN <<[inputs |-> Inputs(c), sels |-> Selectors(c)]>> ELSE <<>>]
+      calls |-> IF ev THEN <<[inputs |-> Inputs(c), sels |-> Selectors(c), text |-> TextOf(c)]>> ELSE <<>>]
 
 Observed ==
   [status0 |-> status = 0, diag |-> stderr # <<>>, stdout |-> stdout, outfile |-> outfile, calls |-> calls]
@@ -131,6 +144,8 @@ StdoutShape ==
 \* the library is called at most once, after every input was opened, with inputs and selectors in command-line order
 CallOrder ==
   \A k \in 1..Len(calls) : calls[k].inputs = Inputs(cfg) /\ calls[k].sels = Selectors(cfg) /\ opened = Inputs(cfg)
+\* the library sees the texts of the command line byte for byte, however the program was given
+Transparent == \A k \in 1..Len(calls) : calls[k].text = TextOf(cfg)
 \* inputs are opened in order, none after a failure
 OpenOrder == \A i \in 1..Len(opened) : opened[i] = Inputs(cfg)[i] /\ (cfg.badAt = 0 \/ i < cfg.badAt)
 \* the steps agree with the function
